@@ -9,7 +9,11 @@
    the observation must be one of them.  Messages are never compared. *)
 From Eino Require Import Base.Util Model.Errors Model.ErrorsFwd Model.ErrorsResume.
 
-Inductive obs : Type := OOk | OErr (p : proj) | OItem (p : proj) | OPanic | OHang.
+(* [OErrB] / [OItemB]: a BLACK-BOX observation — the harness was built without the white-box group of hooks
+   (build tag verif_c13wb: compose.VerifC13Info reads the private fields of the wrapper; it does not compile
+   when those are renamed): the wrapper's fields were not observed, everything the public API gives was
+   (the panic payload is then read from the message). *)
+Inductive obs : Type := OOk | OErr (p : proj) | OItem (p : proj) | OPanic | OHang | OErrB (p : proj) | OItemB (p : proj).
 
 Definition opt_eqb {A} (eqb : A -> A -> bool) (a b : option A) : bool :=
   match a, b with
@@ -32,6 +36,13 @@ Definition proj_eqb (a b : proj) : bool :=
   && Bool.eqb (p_interrupt a) (p_interrupt b)
   && list_eqb String.eqb (p_msg a) (p_msg b).
 
+Definition proj_eqb_bb (a b : proj) : bool :=
+  list_eqb Bool.eqb (p_is a) (p_is b)
+  && list_eqb (opt_eqb N.eqb) (p_as a) (p_as b)
+  && opt_eqb N.eqb (p_panic a) (p_panic b)
+  && Bool.eqb (p_interrupt a) (p_interrupt b)
+  && list_eqb String.eqb (p_msg a) (p_msg b).
+
 Definition obs_of (a : answer) : option obs :=
   match a with
   | AOk => Some OOk
@@ -46,6 +57,8 @@ Definition obs_eqb (a b : obs) : bool :=
   | OOk, OOk => true
   | OErr p, OErr q => proj_eqb p q
   | OItem p, OItem q => proj_eqb p q
+  | OErrB p, OErr q => proj_eqb_bb p q      (* observation (left) black-box, model (right) *)
+  | OItemB p, OItem q => proj_eqb_bb p q
   | OPanic, OPanic => true
   | OHang, OHang => true
   | _, _ => false
